@@ -23,7 +23,7 @@ type C11Case struct {
 var _ = Register("C11", func() interface{} { return new(C11Case) }, func(c interface{}) string { return c11Oracle(c.(*C11Case)) })
 
 var c11Kinds = []Kind{KString, KStringPtr, KStringSlice, KInt, KInt8, KInt16, KInt32, KInt64, KUint, KUint8, KUint16, KUint32, KUint64,
-	KIntSlice, KIntPtr, KUint8Slice, KFloat32, KFloat64, KFloatSlice, KDuration, KDurSlice, KMapSS, KMapSI, KMapIS, KUpper, KUpperSlice, KFuncI, KFuncS}
+	KIntSlice, KIntPtr, KUint8Slice, KFloat32, KFloat64, KFloatSlice, KDuration, KDurSlice, KMapSS, KMapSI, KMapIS, KUpper, KUpperSlice, KFuncI, KFuncS, KTri}
 
 var c11FloatPool = []string{"0", "-0", "1", "1.5", "-2.25", "1e3", "1E3", ".5", "5.", "+1", "1e", "e1", ".", "", " 1", "1 ", "1,5", "1_0", "1_0.5",
 	"3.4028234e38", "3.4028235e38", "3.4028236e38", "3.5e38", "-3.5e38", "1e39", "1e38", "1.401298464324817e-45", "1e-46", "7e-46",
@@ -105,6 +105,8 @@ func c11ScalarText(t *rapid.T, k Kind, base int) string {
 		return rapid.StringN(0, 10, 40).Draw(t, "rs")
 	case KUpper:
 		return rapid.SampledFrom([]string{"x", "", "abc", "!bad", "pre!badpost", "é", "!ba", "bad!"}).Draw(t, "upper")
+	case KTri:
+		return rapid.SampledFrom([]string{"on", "off", "On", "true", "false", "", " on", "1", "onoff"}).Draw(t, "tri")
 	case KBool:
 		return rapid.SampledFrom([]string{"true", "false", "1", "0", "t", "f", "T", "F", "TRUE", "FALSE", "True", "False", "yes", "no", "on", "tRUE", " true", "2", "", "y"}).Draw(t, "bool")
 	case KFloat32, KFloat64:
@@ -175,7 +177,7 @@ func genC11(t *rapid.T) *C11Case {
 		}
 	}
 	c.Via = []string{"arg", "default", "env"}[weighted(t, "via", []int{6, 2, 2})]
-	if k.IsFunc() {
+	if k.IsFunc() || (k == KTri && c.Via == "default") {
 		c.Via = "arg"
 	}
 	if c.Via == "env" {
